@@ -1,5 +1,6 @@
 SPECIFICATION MCSpec
 CONSTANTS
+  FunctionLoopFiltersModule = TRUE
   MinN = 1
   MaxN = 4
 INVARIANT KeysAreContributors
